@@ -329,7 +329,8 @@ class SSHConfig:
         """
         hosts = set()
         for entry in self._config:
-            hosts.update(entry["host"])
+            # Match blocks carry "matches" rather than "host".
+            hosts.update(entry.get("host", []))
         return hosts
 
     def _pattern_matches(self, patterns, target):
